@@ -598,12 +598,17 @@ def main(ck):
         "sphere tilings from meshgen (9 polyhedra grown by split/subdivide/stellate/dual, 40% partial with boundary "
         "edges, renumbered, rotated incl. poles), selected so that n_face >, <, = n_node all occur (tetrahedron for "
         "F=V=4); distance tables derived or source-supplied (arbitrary positive tables in the Grid's edge order); face "
-        "centres derived or supplied; data face- or node-centred, rank 1-3, dtypes float64/int64/float32/uint8, integer, "
+        "centres derived or supplied; node coordinates supplied as lon/lat only, Cartesian only or both, Cartesian on the unit "
+        "sphere or on a sphere of radius 6371.229 / 0.37; one Grid object per case driven through a random history of reads of "
+        "both distance tables, difference(), gradient(normalize=False/True) (some repeated), every table read again at the end: "
+        "each read is checked, tables/data/connectivity/supplied tables must be unchanged, repeated calls must agree; "
+        "data face- or node-centred, rank 1-3, dtypes float64/int64/float32/uint8, integer, "
         "real, dyadic or constant values; difference(), gradient(normalize=False/True), each also per leading slice; "
         "non-trivial = grid has >= 2 faces; distinct = distinct (mesh name, sizes, flags, data)")
     stats = {}
     dist = {"size_relation": {}, "boundary_edges": 0, "rank": {}, "dtype": {}, "kind": {}, "sup_end": 0, "sup_efd": 0,
-            "style": {}, "face_centres": {}}
+            "style": {}, "face_centres": {}, "node_prov": {}, "scaled_node_xyz": 0, "history_len": {},
+            "table_reads_after_gradient": 0}
     outs = []
     for idx, c in enumerate(cases):
         key = (c["name"], len(c["lon"]), len(c["faces"]), c["sup_end"], c["sup_efd"], c["kind"], tuple(c["lead"]),
@@ -619,6 +624,13 @@ def main(ck):
         for k2, v in (("rank", str(len(c["lead"]) + 1)), ("dtype", c["dtype"]), ("kind", c["kind"]), ("style", c["style"]),
                       ("face_centres", c["face_centres"])):
             dist[k2][v] = dist[k2].get(v, 0) + 1
+        np_ = c.get("node_prov", "ll")
+        dist["node_prov"][np_] = dist["node_prov"].get(np_, 0) + 1
+        dist["scaled_node_xyz"] += int(np_ != "ll" and float(c.get("radius", 1.0)) != 1.0)
+        hl = str(len(c.get("history") or []))
+        dist["history_len"][hl] = dist["history_len"].get(hl, 0) + 1
+        hh = list(c.get("history") or [])
+        dist["table_reads_after_gradient"] += int(any(h in ("grad", "gradn") for h in hh))
         dist["sup_end"] += int(c["sup_end"])
         dist["sup_efd"] += int(c["sup_efd"])
         if o is not None and len(ck.cov["samples"]) < 4 and idx % 61 == 0:
@@ -656,7 +668,8 @@ def main(ck):
         "clauses_checked_on_impl": ["edge_node_distance", "edge_face_distance", "supplied_passthrough", "difference",
                                     "gradient", "constant_field_difference", "constant_field_gradient", "normalized_unit_norm",
                                     "normalized_is_rescaling", "leading_dims_independent", "edge_dimensioned", "same_grid",
-                                    "result_type", "shape"],
+                                    "result_type", "shape", "table_changed_by_history", "data_changed_by_operation",
+                                    "connectivity_changed_by_operation", "supplied_table_changed", "result_depends_on_history"],
         "partial": "float rounding is not modelled (exact Q / R statements; deviation validated with the tolerances above); "
                    "arccos is not evaluated in the extracted model: the model fixes WHICH coordinates every table entry is "
                    "computed from, the geodesic itself is evaluated by the 30-digit oracle",
